@@ -58,7 +58,7 @@ def strategy(tier):
         m = draw(S.ode_model(allow_time=False, families=("chain", "epidemic")))
         su = draw(S.ode_setup(m, n_times=(2, 8), t_max=4.0))
         spec = []
-        n_random = draw(st.integers(1, len(m["params"])))
+        n_random = len(m["params"]) if draw(st.booleans()) else draw(st.integers(1, len(m["params"])))
         for i, p in enumerate(m["params"]):
             if i < n_random:
                 form = draw(st.sampled_from(["frozen", "tuple", "dict"]))
@@ -68,7 +68,8 @@ def strategy(tier):
                 spec.append({"form": "fixed", "value": su["theta"][i]})
         order = draw(st.permutations(list(range(len(spec)))))
         return {"part": "B", "model": m, "setup": su, "seeds": [s1, s2], "iters": draw(st.integers(1, 4)),
-                "spec": spec, "dict_order": list(order), "entry": draw(st.sampled_from(["solve_determ", "simulate_param"]))}
+                "spec": spec, "dict_order": list(order), "entry": draw(st.sampled_from(["solve_determ", "simulate_param"])),
+                "stepwise": draw(st.sampled_from([0, 1, 2, 3])), "declare_once": draw(st.sampled_from([False, True, True]))}
     return case()
 
 
@@ -158,13 +159,33 @@ def oracle(case, rec):
     model, order = render.build(m)
     key = "C16/" + case["entry"]
     forms = {sp["form"] for sp in case["spec"]}
+    if case.get("stepwise") and len(case["spec"]) >= 2:
+        rec.label("parameters:declared-in-two-partial-dicts")
     rec.label("entry:" + case["entry"], *["form:" + f for f in forms])
     grid = [su["t0"] + v for v in su["grid_rel"]]
     n = case["iters"]
 
+    def declare():
+        full = _param_dict(m, case["spec"], case["dict_order"])
+        if case.get("stepwise") and len(full) >= 2:
+            # parameters declared one group at a time (partial dicts), as in an interactive session
+            items = list(full.items())
+            cut = 1 + case["stepwise"] % (len(items) - 1)
+            model.parameters = dict(items[:cut])
+            model.parameters = dict(items[cut:])
+        else:
+            model.parameters = full
+
+    once = bool(case.get("declare_once"))
+    if once:
+        # the random parameters are declared once; every later run only re-seeds the global generator
+        rec.label("parameters:declared-once-before-all-runs")
+        declare()
+
     def run(seed):
         np.random.seed(seed)
-        model.parameters = _param_dict(m, case["spec"], case["dict_order"])
+        if not once:
+            declare()
         model.initial_values = (su["x0"], su["t0"])
         return call(key, case, getattr(model, case["entry"]), grid, n, full_output=True)
     out1, out1b, out2 = run(s1), run(s1), run(s2)
